@@ -36,7 +36,8 @@ META = {
     "level": "exploration",
     "rule": "a case = one Actuator run (12-120 bars, 1-min or 5-min; mixes uni+aave+gmx, squeeth+pool with LP lent to a vault, "
     "deribit+uni, all market types, gmx+gmx2, real-data slices of tests/data (polygon pool + aave WETH + squeeth + its pool); "
-    "account quote equal to / different from the markets' quotes; price frames equal to or deviating from pool prices) or one "
+    "account quote equal to / different from the markets' quotes; price frames equal to or deviating from pool prices; one run in "
+    "five with allow_negative_balance=True so that the wallet is overdrawn) or one "
     "frozen scene (15-50 operations, status after each). One evaluation = one comparison of a reported figure (asset value, "
     "wallet balances, one market's net value, total, sum formula, bar-end holdings, a data-frame row) with the independent valuation. "
     "Non-trivial = an observation point with >= 2 non-zero holdings; distinct by (path, market mix, per-market quote "
@@ -412,6 +413,8 @@ def evaluate(ctx, status, st, ts, op="bar-end", extra=None):
 
     # ---- wallet
     wv = V.wallet_value(st["wallet"], prices)
+    if any(v < 0 for v in st["wallet"].values()):
+        mon.hit("observations-with-overdrawn-wallet")
     obs_asset = F(status.asset_value)
     mon.ev()
     if abs(obs_asset - wv.value) > REL * wv.gross:
@@ -935,7 +938,9 @@ def act_case(mon, rng, c, mix):
         return [PeriodTrigger(timedelta(minutes=step * rng.choice([2, 3, 5])), lambda snap: obs.trigger(strat, snap))]
 
     strat = Dr.make_script_strategy({}, obs, triggers if rng.random() < 0.5 else None)
-    act = Dr.build_actuator(markets, frame.copy(), quote, b["assets"], strat, b["interval"])
+    overdraft = rng.random() < 0.2  # Actuator(allow_negative_balance=True): the wallet may be overdrawn
+    ctx.info["overdraft"] = overdraft
+    act = Dr.build_actuator(markets, frame.copy(), quote, b["assets"], strat, b["interval"], allow_negative_balance=overdraft)
     for fn in b.get("pre", ()):
         Dr.call_op(fn)
     records = []
@@ -1074,7 +1079,11 @@ def dir_case(mon, rng, c):
     if mix in ("uni", "uni+aave") and rng.random() < 0.5:
         requote(sc, rng)
         re = True
-    ctx = Ctx(mon, fz.markets, sc.price_df, fz.broker.quote_token.name, mix, "direct", 1, dict(sc.info, requoted=re, case=c))
+    overdraft = rng.random() < 0.2  # Broker(allow_negative_balance=True)
+    if overdraft:
+        fz.broker.allow_negative_balance = True
+    ctx = Ctx(mon, fz.markets, sc.price_df, fz.broker.quote_token.name, mix, "direct", 1,
+              dict(sc.info, requoted=re, case=c, overdraft=overdraft))
     mon.hit(f"scenes/{mix}")
 
     def query(op):
@@ -1156,7 +1165,7 @@ def floors(merged, tier):
         "bars": 800 * k, "direct-queries": 800 * k, "df-rows": 500 * k, "runs-complete": 20 * k,
         "evaluations-with-lent-position": 300 * k, "evaluations-after-position-returned-or-redeemed": 50 * k,
         "deribit-cash-moved-on-closed-bar": 200 * k, "deribit-closed-bar-with-options": 200 * k,
-        "market-quote-differs-and-price-not-1": 1000 * k,
+        "market-quote-differs-and-price-not-1": 1000 * k, "observations-with-overdrawn-wallet": 100 * k,
     }
     for m in BUILDERS:
         need[f"runs/{m}"] = 3 * k
